@@ -293,3 +293,42 @@ def known_findings():
     p = os.path.join(VERIF, "known_findings.json")
     if not os.path.exists(p): return []
     with open(p) as f: return json.load(f)["findings"]
+
+# ---------------------------------------------------------------- comparing model and implementation
+import floatoracle as _fo
+
+def _float_item_ok(mitem, iitem):
+    """model 'rc=0 ftext=x..' against impl 'rc=0 bits=N' through the oracle"""
+    mm = re.match(r"rc=(\d+) ([fd])text=(\S+)$", mitem)
+    im = re.match(r"rc=(\d+) bits=(\d+)$", iitem)
+    if not mm or not im or mm.group(1) != im.group(1):
+        return False
+    bits = 64 if mm.group(2) == "d" else 32
+    want = _fo.strtox(dec(mm.group(3)) or b"", bits)
+    got = int(im.group(2))
+    if want == "nan":
+        prec, _, _, ebits = _fo.FMT[bits]
+        return (got >> (prec - 1)) & (2 ** ebits - 1) == 2 ** ebits - 1 and got & (2 ** (prec - 1) - 1) != 0
+    return want == got
+
+def items_equal(m, i):
+    if m == i: return True
+    if "text=" in m and "bits=" in i:
+        return _float_item_ok(m.strip(), i.strip())
+    return False
+
+def line_equal(m, i):
+    if m == i: return True
+    if m.startswith("all ") and i.startswith("all "):
+        ms, is_ = m[4:].split(";"), i[4:].split(";")
+        return len(ms) == len(is_) and all(items_equal(a, b) for a, b in zip(ms, is_))
+    return items_equal(m, i)
+
+def first_diff(mlines, ilines):
+    """index and pair of the first differing line, or None"""
+    for k in range(max(len(mlines), len(ilines))):
+        a = mlines[k] if k < len(mlines) else "<missing>"
+        b = ilines[k] if k < len(ilines) else "<missing>"
+        if not line_equal(a, b):
+            return k, a, b
+    return None
